@@ -490,12 +490,16 @@ theorem zDeleteRank_zero {db k a b now} (h : (zDeleteRank db k a b now).out = .o
     (zDeleteRank db k a b now).db = db := by
   revert h; unfold zDeleteRank; split
   · intro _; rfl
-  · exact zDeleteWhere_zero
+  · split
+    · intro _; rfl
+    · exact zDeleteWhere_zero
 
 theorem zDeleteRank_noerr {db k a b now e} (h : (zDeleteRank db k a b now).out = .error e) : False := by
   revert h; unfold zDeleteRank; split
   · intro h; cases h
-  · exact zDeleteWhere_noerr
+  · split
+    · intro h; cases h
+    · exact zDeleteWhere_noerr
 
 theorem zIncr_soft {db k el d now e} (hs : Soft e) (h : (zIncr db k el d now).out = .error e) :
     (zIncr db k el d now).db = db := by
